@@ -1,9 +1,9 @@
 SPECIFICATION MCSpec
 CONSTANTS TxGas = 3
           Stipend = 2
-          TxCap = 10
+          TxCap = 12
           ErrShift = 2
-          Max = 12
+          Max = 14
           Holes = FALSE
 INVARIANTS Sufficient WithinRatio WithinCap FailsCleanly ProbesWithinCap NoRepeat HiSucceeds Progress ProbeBound
 PROPERTIES SearchRefines
